@@ -55,9 +55,11 @@ def execute(sc):
                             max_steps=sc.get('max_steps', 60000)))
     ctl.interesting = _INTERESTING
     asyncio.set_event_loop_policy(rt.VPolicy())
+    ctl.stalls = {k: v for k, v in sc.get('stalls', {}).items()}
     tau = sc.get('timeout', 4.0)
     fspec = sc.get('func', {})
     fail = set(fspec.get('fail', []))
+    fail_cancel = set(fspec.get('fail_cancel', []))    # invocations that fail with CancelledError of their own
     durs = {int(k): v for k, v in fspec.get('durs', {}).items()}
     ddur = fspec.get('dur', 0.0)
     ncall = [0]
@@ -79,10 +81,13 @@ def execute(sc):
                 await asyncio.sleep(d)
             if n in fail:
                 ctl.log('FuncEnd', n=n, how='fail')
+                if n in fail_cancel:
+                    raise asyncio.CancelledError()      # e.g. the function awaited something that was cancelled
                 raise FuncError(n)
             ctl.log('FuncEnd', n=n, how='ok')
         except asyncio.CancelledError:
-            ctl.log('FuncEnd', n=n, how='cancel')
+            if n not in fail_cancel:
+                ctl.log('FuncEnd', n=n, how='cancel')
             raise
 
     def make_buffer():
